@@ -17,3 +17,4 @@ pub mod c19;
 pub mod c16;
 pub mod box_eng;
 pub mod c18;
+pub mod c05;
